@@ -454,6 +454,39 @@ func (l *Lowerer) forStmt(x *ast.ForStmt, label string) {
 	if x.Init != nil {
 		l.stmt(x.Init, "")
 	}
+	if l.p.opts.unroll > 0 {
+		exit := l.f.newBlock("unroll.exit")
+		for k := 0; k < l.p.opts.unroll && l.cur != nil; k++ {
+			body := l.f.newBlock("unroll.body")
+			post := l.f.newBlock("unroll.post")
+			if x.Cond != nil {
+				l.cond(x.Cond, body, exit)
+			} else {
+				l.jump(body)
+			}
+			l.tg = &targets{brk: exit, cont: post, label: label, prev: l.tg, loop: true}
+			l.cur = body
+			l.block(x.Body)
+			l.jump(post)
+			l.tg = l.tg.prev
+			l.cur = post
+			if x.Post != nil {
+				l.stmt(x.Post, "")
+			}
+		}
+		if l.cur != nil {
+			// bound reached: only paths that leave the loop now are explored
+			stop := l.f.newBlock("unroll.stop")
+			if x.Cond != nil {
+				l.cond(x.Cond, stop, exit)
+			} else {
+				l.jump(stop)
+			}
+			stop.Stmts = append(stop.Stmts, &Stmt{Kind: SAssume, E: tFalse})
+		}
+		l.cur = exit
+		return
+	}
 	head, post, exit, li, ord, ls := l.beginLoop(label, nil)
 	// counted loops: `for i := e; ...; i++` where the body never assigns i keeps i >= its initial value
 	counter, counterInit := l.countedLoop(x)
@@ -613,6 +646,45 @@ func (l *Lowerer) rangeStmt(x *ast.RangeStmt, label string) {
 		iVar := fmt.Sprintf("$ri%d", id)
 		l.assign(iVar, "Int", IntLit(0))
 		iv := V(iVar, "Int")
+		if l.p.opts.unroll > 0 {
+			exit := l.f.newBlock("unroll.exit")
+			for k := 0; k <= l.p.opts.unroll && l.cur != nil; k++ {
+				body := l.f.newBlock("unroll.body")
+				post := l.f.newBlock("unroll.post")
+				tb := l.f.newBlock("t")
+				fb := l.f.newBlock("f")
+				l.cur.Succs = append(l.cur.Succs, tb, fb)
+				tb.Stmts = append(tb.Stmts, &Stmt{Kind: SAssume, E: Lt(iv, n)})
+				fb.Stmts = append(fb.Stmts, &Stmt{Kind: SAssume, E: Not(Lt(iv, n))})
+				fb.Succs = append(fb.Succs, exit)
+				if k == l.p.opts.unroll {
+					tb.Stmts = append(tb.Stmts, &Stmt{Kind: SAssume, E: tFalse})
+					l.cur = nil
+					break
+				}
+				tb.Succs = append(tb.Succs, body)
+				l.tg = &targets{brk: exit, cont: post, label: label, prev: l.tg, loop: true}
+				l.cur = body
+				setKV(x.Key, iv, types.Typ[types.Int])
+				if x.Value != nil {
+					var ev *Term
+					if isSlice {
+						ev = l.p.reg.sIndex(sv, iv)
+					} else {
+						ev = Select(sv, iv)
+					}
+					l.wf(ev, elemT)
+					setKV(x.Value, ev, elemT)
+				}
+				l.block(x.Body)
+				l.jump(post)
+				l.tg = l.tg.prev
+				l.cur = post
+				l.assign(iVar, "Int", Add(iv, IntLit(1)))
+			}
+			l.cur = exit
+			return
+		}
 		hidden := map[string]envEntry{"$i": {iv, types.Typ[types.Int]}, "$n": {n, types.Typ[types.Int]}, "$s": {sv, xt}}
 		head, post, exit, li, ord, ls := l.beginLoop(label, nil)
 		l.invClauses(ls, hidden, "inv-entry", ord, x)
@@ -1004,7 +1076,9 @@ func (l *Lowerer) branchStmt(x *ast.BranchStmt) {
 	l.cur = nil
 }
 
-func (t *targets) isLoop() bool { return t.cont != nil && t.brk != nil && strings.HasPrefix(t.brk.Name, "loop") }
+func (t *targets) isLoop() bool {
+	return t.loop || (t.cont != nil && t.brk != nil && strings.HasPrefix(t.brk.Name, "loop"))
+}
 
 func (l *Lowerer) labelBlock(name string) *Block {
 	if b, ok := l.labels[name]; ok {
